@@ -300,6 +300,108 @@ def cross_session(ei: int, li: int, has_schema: bool) -> bool:
     return done(fast.native(_cross_session, fast.pick(ei, len(EARLIER)), fast.pick(li, len(LATER)), bool(fast.pick(has_schema, 2))))
 
 
+# ------------------------------------------------------------------ a COMMIT the engine refuses is never reported as success
+CONFLICTS = [
+    "TransactionContext Error: Failed to commit: Transaction conflict: adding entries to a table that has been altered!",
+    "TransactionContext Error: Failed to commit: PRIMARY KEY or UNIQUE constraint violated: duplicate key \"7\"",
+    "TransactionContext Error: Failed to commit: write-write conflict on key",
+]
+COMMIT_FORMS = ["commit", "COMMIT", "conn.commit", "execute_string"]
+
+
+def _refused_commit(ci: int, fi: int, writes: int) -> bool:
+    eng = std_engine()
+    fs = instance(eng)
+    A = fs.connect(database="db1", schema="s1")
+    B = fs.connect(database="db1", schema="s1")
+    a1, a2 = A.cursor(), A.cursor()
+    a1.execute("begin")
+    for k in range(writes):
+        a2.execute(f"insert into t2 values ({k})")
+
+    def hook(stub, sql):
+        if isinstance(sql, str) and sql.strip().upper().startswith("COMMIT") and stub.in_tx:
+            # DuckDB: a failed COMMIT rolls the transaction back
+            stub.in_tx = False
+            raise duckdb.TransactionException(CONFLICTS[ci])
+
+    eng.hooks.append(hook)
+    raised = None
+    rows = None
+    form = COMMIT_FORMS[fi]
+    try:
+        if form == "conn.commit":
+            A.commit()
+        elif form == "execute_string":
+            rows = [c.fetchall() for c in A.execute_string("commit;")]
+        else:
+            rows = a2.execute(form).fetchall()
+    except Exception as e:  # noqa: BLE001
+        raised = e
+    eng.hooks.remove(hook)
+    if raised is None:
+        return False  # the session was told its work is committed while the engine discarded it: rows silently lost
+    del rows
+    # both sessions keep working afterwards
+    try:
+        a1.execute("select a from t2").fetchall()
+        B.cursor().execute("insert into t2 values (9)")
+        a1.execute("rollback")
+    except Exception:  # noqa: BLE001
+        return False
+    return True
+
+
+@ob(
+    "C19.refused_commit_is_reported",
+    encodes=["fakesnow.cursor.FakeSnowflakeCursor._execute (TransactionException handling)", "fakesnow.conn.FakeSnowflakeConnection.commit/execute_string"],
+    bounds="session A inside a transaction with 0..2 writes, another session alive; A's COMMIT (lower / upper case statement, conn.commit(), execute_string) is "
+    "refused by the engine with one of 3 conflict messages (table altered, PRIMARY KEY violated by a concurrent insert, write-write conflict): the caller "
+    "gets an exception, never the success status; both sessions stay usable",
+    timeout=(120, 300),
+    stubs=["K3 vf.duckstub.Engine with a fault hook at COMMIT (a failed COMMIT rolls back)"],
+)
+def refused_commit(ci: int, fi: int, writes: int) -> bool:
+    """
+    pre: 0 <= ci < len(CONFLICTS) and 0 <= fi < len(COMMIT_FORMS) and 0 <= writes <= 2
+    post: _
+    """
+    return done(fast.native(_refused_commit, fast.pick(ci, len(CONFLICTS)), fast.pick(fi, len(COMMIT_FORMS)), fast.pick(writes, 3)))
+
+
+def _real_refused_commit(a: dict):
+    """Real DuckDB: two open transactions insert the same PRIMARY KEY value; the second COMMIT must not be reported as success."""
+    from fakesnow.instance import FakeSnow
+
+    fs = FakeSnow()
+    A = fs.connect(database="db1", schema="s1")
+    B = fs.connect(database="db1", schema="s1")
+    A.cursor().execute("create table pk (id int primary key, v varchar)")
+    ca, cb = A.cursor(), B.cursor()
+    ca.execute("begin")
+    cb.execute("begin")
+    ca.execute("insert into pk values (7, 'a')")
+    cb.execute("insert into pk values (7, 'b')")
+    cb.execute("commit")
+    form = COMMIT_FORMS[a["fi"]]
+    try:
+        if form == "conn.commit":
+            A.commit()
+        elif form == "execute_string":
+            list(A.execute_string("commit;"))
+        else:
+            ca.execute(form)
+        raised = None
+    except Exception as e:  # noqa: BLE001
+        raised = e
+    rows = B.cursor().execute("select id, v from pk").fetchall()
+    bad = raised is None and (7, "a") not in rows
+    return bad, f"real stack: second COMMIT {'raised ' + type(raised).__name__ if raised else 'reported success'}; table holds {rows}"
+
+
+REGISTRY["C19.refused_commit_is_reported"].real_replay = _real_refused_commit
+
+
 # ------------------------------------------------------------------ independence of what happened before (shared harness)
 import obligations.shared_independence as _indep  # noqa: E402
 
